@@ -51,8 +51,7 @@ def setup_imports():
         sys.path.insert(0, p)
     import warnings
     warnings.simplefilter('ignore')
-    import logging
-    logging.disable(logging.CRITICAL)
+    set_logging(False)
     import pamqp
     here = os.path.realpath(os.path.dirname(pamqp.__file__))
     want = os.path.realpath(os.path.join(REPO, 'pamqp'))
@@ -62,6 +61,28 @@ def setup_imports():
 
 class HarnessError(Exception):
     pass
+
+
+_NULL_HANDLER = []
+
+
+def set_logging(debug):
+    """Two logging configurations an application may choose: everything disabled, or
+    the library's loggers at DEBUG (so that every LOGGER.isEnabledFor / debug / warning
+    path of the library executes) with a NullHandler.  Checks alternate between the two
+    from one evaluated case to the next; library behaviour must not depend on it."""
+    import logging
+    lg = logging.getLogger('pamqp')
+    if not _NULL_HANDLER:
+        _NULL_HANDLER.append(logging.NullHandler())
+        lg.addHandler(_NULL_HANDLER[0])
+        lg.propagate = False
+    if debug:
+        logging.disable(logging.NOTSET)
+        lg.setLevel(logging.DEBUG)
+    else:
+        lg.setLevel(logging.NOTSET)
+        logging.disable(logging.CRITICAL)
 
 
 class Violation(Exception):
@@ -147,6 +168,7 @@ class Recorder:
             raise HarnessError('classifier failed')
         violation = None
         info = None
+        set_logging(self.evaluations % 2 == 0)
         if self.inflight:
             with open(self.inflight, 'w') as f:
                 f.write(self.canon.dumps(case))
@@ -615,14 +637,17 @@ def replay(mod, path):
     if not comp:
         print('HARNESS-ERROR unknown component %r' % rp['component'])
         return 2
-    case = canon.from_json(rp['case'])
-    try:
-        comp[0].check(case)
-    except Violation as v:
-        print('VIOLATION property=%s replay=%s' % (mod.PROPERTY_ID, path))
-        print('  component=%s bucket=%s\n  %s' % (comp[0].name, v.bucket,
-                                                 v.message[:2000]))
-        return 1
+    for debug in (False, True):       # both logging configurations (see set_logging)
+        set_logging(debug)
+        case = canon.from_json(rp['case'])
+        try:
+            comp[0].check(case)
+        except Violation as v:
+            print('VIOLATION property=%s replay=%s' % (mod.PROPERTY_ID, path))
+            print('  component=%s bucket=%s logging=%s\n  %s' % (
+                comp[0].name, v.bucket, 'debug' if debug else 'off',
+                v.message[:2000]))
+            return 1
     print('replay %s: oracle holds on this case' % path)
     return 0
 
